@@ -20,6 +20,7 @@ class MinimizeTap:
         self.lmfit = lmfit
         self.orig = lmfit.minimize
         self.log = []
+        self.poc_log = []
         self.counts = {}
         self.installed = False
 
@@ -41,6 +42,11 @@ class MinimizeTap:
                          "params0": core.fp(params),
                          "vary": {k: params[k].vary for k in params}}
             out = orig(fcn, params, method=method, args=args, kws=kws, **kw)
+            if caller == "nanite.poc":
+                tap.poc_log.append({"nfev": int(out.nfev),
+                                    "success": bool(out.success),
+                                    "aborted": bool(getattr(out, "aborted",
+                                                            False))})
             if entry is not None:
                 entry["params0_after"] = core.fp(params)
                 entry["cp"] = out.params["contact_point"].value
